@@ -35,6 +35,8 @@ pub struct Opts {
     pub high_bytes: bool,
     /// a continuation directly before the end of the file
     pub cont_at_eof: bool,
+    /// blanks between an implicit key and the end of its line (`k <LF>`)
+    pub implicit_trailing_ws: bool,
     /// a continuation before the value has any content (`k = \<LF>  v`), and tabs after a continuation
     pub cont_leading_ws: bool,
     pub max_sections: usize,
@@ -58,6 +60,7 @@ impl Opts {
             high_bytes: true,
             cont_at_eof: true,
             cont_leading_ws: true,
+            implicit_trailing_ws: true,
             max_sections: 6,
             max_entries: 5,
         }
@@ -231,14 +234,14 @@ impl Gen<'_, '_> {
                     if b == b'"' || b == b'\\' {
                         self.out.push(b'\\');
                         self.feat.sub_escape += 1;
-                    } else if self.o.odd_sub_escape && self.t.chance(4) {
+                    } else if self.o.odd_sub_escape && self.t.chance(16) {
                         self.out.push(b'\\');
                         self.feat.odd_sub_escape += 1;
                     }
                     self.out.push(b);
                 }
                 let mut sub = sub;
-                if self.o.gix_only && self.t.chance(3) {
+                if self.o.gix_only && self.o.odd_sub_escape && self.t.chance(8) {
                     // an escaped NUL: accepted by the parser, refused by Header::new()
                     self.out.extend_from_slice(b"\\\0");
                     sub.push(0);
@@ -388,7 +391,9 @@ impl Gen<'_, '_> {
         let implicit = self.t.chance(40);
         if implicit {
             self.feat.implicit += 1;
-            self.spaces(true);
+            if self.o.implicit_trailing_ws {
+                self.spaces(true);
+            }
             if self.o.gix_only && self.t.chance(24) {
                 self.feat.gix_only += 1;
                 if self.t.bool() {
@@ -449,6 +454,27 @@ impl Gen<'_, '_> {
 
 /// Decode one config document from the tape.
 pub fn gen_doc(t: &mut Tape, o: Opts) -> Doc {
+    // The constructs on which gitoxide is already known to deviate (see known_findings.json: BOM, odd subsection
+    // escapes, \b, interior tabs/CR, blanks after an implicit key or at the start of a continued value, upper-case or
+    // multi-dot legacy headers, continuation at EOF) are confined to a quarter of the documents ("spicy" ones), so
+    // that three quarters of the search is never shadowed by a known class.
+    let spicy = t.chance(64);
+    let o = if spicy {
+        o
+    } else {
+        Opts {
+            bom: false,
+            legacy_upper: false,
+            legacy_multi_dot: false,
+            odd_sub_escape: false,
+            bs_escape: false,
+            inner_tab: false,
+            cont_at_eof: false,
+            cont_leading_ws: false,
+            implicit_trailing_ws: false,
+            ..o
+        }
+    };
     let eol_style = if o.crlf { t.weighted(&[6, 2, 2]) } else { 0 };
     let mut g = Gen {
         t,
@@ -459,7 +485,7 @@ pub fn gen_doc(t: &mut Tape, o: Opts) -> Doc {
     };
     g.feat.crlf = eol_style == 1;
     g.feat.mixed_eol = eol_style == 2;
-    if o.bom && g.t.chance(8) {
+    if o.bom && g.t.chance(40) {
         g.out.extend_from_slice(b"\xef\xbb\xbf");
         g.feat.bom = true;
     }
@@ -508,7 +534,7 @@ pub fn gen_doc(t: &mut Tape, o: Opts) -> Doc {
         sections.push(sec);
     }
     let mut forced_cont_at_eof = false;
-    if o.cont_at_eof && g.t.chance(6) {
+    if o.cont_at_eof && g.t.chance(24) {
         // `k=a\<EOL><EOF>`: git reads "a"
         g.out.extend_from_slice(b"k=a\\");
         g.eol();
